@@ -688,7 +688,7 @@ Lemma rotate_W a b ok s s' : W s -> del_fix s = true -> idx_of s b = [] -> rotat
 Proof.
   intros Ws Fx Gb H. unfold rotate_msg in H. destruct (mem a (rrtok s)); [discriminate|].
   destruct (negb (mem a (secrets s))); [discriminate|]. destruct (negb ok); [discriminate|].
-  destruct (mem b (rotated s)); [discriminate|]. destruct (rot_check s && has_records s b); [discriminate|].
+  destruct (mem b (rotated s)); [discriminate|]. destruct (rot_check s && has_records s b); [discriminate|]. destruct (actor_check s && is_actor s b); [discriminate|].
   destruct (negb (mem a (accts s))) eqn:Ma; [discriminate|].
   destruct (mem b (accts s)) eqn:Mb; [discriminate|].
   assert (Nab : a <> b). { intros ->. apply negb_false_iff in Ma. congruence. }
@@ -705,7 +705,7 @@ Lemma rotate_rr_W a b ok s s' : W s -> del_fix s = true -> idx_of s b = [] -> ro
 Proof.
   intros Ws Fx Gb H. unfold rotate_rr in H. destruct (negb (mem a (rrtok s))); [discriminate|].
   destruct (negb ok); [discriminate|]. destruct (mem b (rotated s)); [discriminate|].
-  destruct (rot_check s && has_records s b); [discriminate|].
+  destruct (rot_check s && has_records s b); [discriminate|]. destruct (actor_check s && is_actor s b); [discriminate|].
   destruct (Z.eq_dec a b) as [->|Nab].
   - (* rotating an address without records onto itself: nothing moves *)
     unfold rotate_core in H. rewrite Gb in H. simpl in H. inv H.
@@ -848,7 +848,7 @@ Proof.
   - rewrite (step_del_fix _ _ _ E). auto.
 Qed.
 
-Lemma W_init uk mt pc pv pn ac se b fx mg rr rc : W (init_state uk mt pc pv pn ac se b fx mg rr rc).
+Lemma W_init uk mt pc pv pn ac se b fx mg rr rc ak : W (init_state uk mt pc pv pn ac se b fx mg rr rc ak).
 Proof. constructor; simpl; try constructor; try tauto; try lia. Qed.
 
 (* only an address itself creates, changes or deletes its records; a rotation moves them unchanged *)
@@ -1047,7 +1047,7 @@ Qed.
 (* ================================================================ why the rotation guard is needed *)
 (* a rotation into an address that already holds a record with the same key overwrites that address'
    index entry: its old record stays in the store but is no longer indexed *)
-Definition sg : state := init_state "moniker,username" 0 [] [] [] [0; 1; 2; 3] [0; 1; 2; 3] (fun x d => match x with User _ => 5000 | Gov => 0 end) true true [] false.
+Definition sg : state := init_state "moniker,username" 0 [] [] [] [0; 1; 2; 3] [0; 1; 2; 3] (fun x d => match x with User _ => 5000 | Gov => 0 end) true true [] false false.
 Definition w_guard : list op := [ORegister 100 4 [("twitter", "x")]; ORegister 100 0 [("twitter", "y")]; ORotate 0 4 true]%string.
 Lemma rot_guard_needed : W sg /\ del_fix sg = true /\ ~ rot_guarded sg w_guard /\ ~ W (run sg w_guard).
 Proof.
